@@ -85,6 +85,13 @@ class Trace:
     # what the workflow object built from the @catch_error declarations once run() had validated it:
     # {"handlers": [names], "handler_for_step": {step: handler}} (None: rejected, or never reached)
     handler_table: Any = None
+    # one dict per asynchronous cancellation teardown a step body started (script marker "on_cancel_teardown")
+    teardowns: list = field(default_factory=list)
+    # step bodies (async) entered and not yet left at the moment the run's outcome became available to `await handler`:
+    # (step, input uid, retry number) -- an observation of the bodies themselves, not of the runner's task table
+    alive_at_outcome: list = field(default_factory=list)
+    stream_len_at_outcome: int | None = None
+    drained_until: float | None = None
 
 
 class RecordingPolicy:
@@ -132,6 +139,7 @@ class Run:
         self.handler: Any = None
         self.finished = False
         self.quiet_count = 0
+        self.inflight: list[tuple] = []  # async step bodies entered and not yet left
 
     def fresh(self) -> int:
         self.uid += 1
@@ -253,6 +261,8 @@ async def _body(run: Run, sdef: dict, ctx: Context, ev: Any) -> Any:
     info["stream_len"] = len(run.trace.stream)  # what had been published when the body started (C35: RUNNING comes first)
     run.trace.steps.append(("enter", name, uid, rn, loop.time(), info))
     status = "ok"
+    flight = (name, uid, rn, len(run.trace.steps))
+    run.inflight.append(flight)
     try:
         return await _interp(run, sdef, ctx, ev, rn, inv=uid)
     except asyncio.CancelledError:
@@ -268,11 +278,54 @@ async def _body(run: Run, sdef: dict, ctx: Context, ev: Any) -> Any:
                 await asyncio.sleep(osl[1])
             except asyncio.CancelledError:
                 pass
+        otd = next((a for a in sdef["script"] if a[0] == "on_cancel_teardown"), None)
+        if otd is not None:
+            # ["on_cancel_teardown", seconds, type id | None, mode]: an asynchronous teardown of `seconds` (closing a connection,
+            # flushing) started by the cancellation, followed by a last word on the stream.  What a FURTHER cancellation does to it:
+            #   "finally"  - interrupts it (the CancelledError leaves the `finally:` block; nothing is written)
+            #   "swallow"  - as "finally", but the first cancellation was swallowed: if the teardown gets to its end the body
+            #                returns normally
+            #   "shield"   - ends the waiting at once; the last word is still written, then the cancellation goes on
+            #   "stubborn" - is ignored: the teardown takes its full time whatever happens
+            secs, ty, mode = float(otd[1]), otd[2], otd[3]
+            td = {"step": name, "uid": uid, "rn": rn, "secs": secs, "ty": ty, "mode": mode, "start": loop.time(), "end": None,
+                  "more_cancels": 0, "wrote": None, "how": None}
+            run.trace.teardowns.append(td)
+            try:
+                if mode in ("finally", "swallow"):
+                    await asyncio.sleep(secs)
+                elif mode == "shield":
+                    try:
+                        await asyncio.sleep(secs)
+                    except asyncio.CancelledError:
+                        td["more_cancels"] += 1
+                else:
+                    deadline = loop.time() + secs
+                    while loop.time() < deadline:
+                        try:
+                            await asyncio.sleep(deadline - loop.time())
+                        except asyncio.CancelledError:
+                            td["more_cancels"] += 1
+                td["how"] = "completed" if loop.time() >= td["start"] + secs else "cut_short"
+                if ty is not None:
+                    w = ET.mk(ty, run.fresh(), None)
+                    td["wrote"] = (w.uid, loop.time())
+                    ctx.write_event_to_stream(w)
+            except asyncio.CancelledError:
+                td["more_cancels"] += 1
+                td["how"] = "interrupted"
+                raise
+            finally:
+                td["end"] = loop.time()
+            if mode == "swallow":
+                status = "ok_after_swallowed_cancel"
+                return None
         raise
     except BaseException as e:
         status = "raise:" + type(e).__name__
         raise
     finally:
+        run.inflight.remove(flight)
         run.trace.steps.append(("exit", name, uid, rn, loop.time(), {"status": status, "ret": run.__dict__.pop("_last_ret", None)}))
 
 
@@ -353,7 +406,10 @@ async def _interp(run: Run, sdef: dict, ctx: Context, ev: Any, rn: int, inv: Any
             await asyncio.sleep(act[1])
         elif op == "yield":
             await asyncio.sleep(0)
-        elif op in ("on_cancel_stream", "on_cancel_sleep"):
+        elif op == "block":
+            # works until the run ends: waits on something no schedule ever completes (not a gate, not a timer)
+            await asyncio.Event().wait()
+        elif op in ("on_cancel_stream", "on_cancel_sleep", "on_cancel_teardown"):
             pass  # markers: see _body's CancelledError branch
         elif op == "send":
             if run.spec.get("det_uids"):
@@ -674,6 +730,8 @@ def run_spec(spec: dict, seed: int, replay_actions: list[int] | None = None, max
                 run.trace.outcome = ("error", e)
             run.finished = True
             run.trace.end_time = loop.time()
+            run.trace.alive_at_outcome = [f[:3] for f in run.inflight]
+            run.trace.stream_len_at_outcome = len(run.trace.stream)
             try:
                 stt = await handler.ctx.store.get_state()
                 run.trace.final_store = json.loads(json.dumps(dict(stt.items()) if hasattr(stt, "items") else stt.model_dump(), sort_keys=True, default=repr))  # type: ignore[attr-defined]
@@ -696,6 +754,14 @@ def run_spec(spec: dict, seed: int, replay_actions: list[int] | None = None, max
                     await asyncio.wait_for(ctask, timeout=5)
                 except (asyncio.TimeoutError, asyncio.CancelledError):
                     pass
+            if spec.get("drain_after_end"):
+                # opt-in: the run is over; keep the (virtual) loop going until every step body that is still in flight has
+                # come to its end on its own (bounded), so that whatever it still does -- writes to the stream -- is observed
+                limit = loop.time() + float(spec["drain_after_end"])
+                while run.inflight and loop.time() < limit:
+                    await asyncio.sleep(0.125)
+                await asyncio.sleep(0.125)
+                run.trace.drained_until = loop.time()
 
         try:
             run_virtual(main, max_time=max_time, hook_factory=hook_factory)
